@@ -60,8 +60,58 @@ def exact_left_inverse(A):
 
 
 # ------------------------------------------------------------------------------ grids
+def mixed_grid(nx, ny, split, pert=None):
+    """2-D grid mixing cell types, built with the public pp.Grid constructor: an nx x ny lattice
+    of unit quadrilaterals where split[c] = 0 keeps the quadrilateral, 1 / 2 cuts it into two
+    triangles along one of its diagonals.  Cells are counter-clockwise node loops; a face keeps the
+    direction of the first loop that runs through it (sign +1 there, -1 for the neighbour)."""
+    import scipy.sparse as _sps
+    nn = (nx + 1) * (ny + 1)
+    X = np.zeros((3, nn))
+    for j in range(ny + 1):
+        for i in range(nx + 1):
+            X[0, j * (nx + 1) + i] = i
+            X[1, j * (nx + 1) + i] = j
+    if pert:
+        X[:2] += np.array(pert, dtype=float) / 32.0
+    cells = []
+    for j in range(ny):
+        for i in range(nx):
+            n00 = j * (nx + 1) + i
+            n10, n01 = n00 + 1, n00 + nx + 1
+            n11 = n01 + 1
+            s = split[j * nx + i]
+            if s == 0:
+                cells.append([n00, n10, n11, n01])
+            elif s == 1:
+                cells += [[n00, n10, n11], [n00, n11, n01]]
+            else:
+                cells += [[n00, n10, n01], [n10, n11, n01]]
+    faces, fn, trip = {}, [], []
+    for c, loop in enumerate(cells):
+        for a, b in zip(loop, loop[1:] + loop[:1]):
+            key = (min(a, b), max(a, b))
+            if key not in faces:
+                faces[key] = len(fn)
+                fn.append((a, b))
+                trip.append((faces[key], c, 1))
+            else:
+                f = faces[key]
+                trip.append((f, c, 1 if fn[f] == (a, b) else -1))
+    nf = len(fn)
+    face_nodes = _sps.csc_matrix((np.ones(2 * nf, dtype=int), np.array(fn).ravel(), 2 * np.arange(nf + 1)),
+                                 shape=(nn, nf))
+    t = np.array(trip)
+    cell_faces = _sps.csc_matrix((t[:, 2], (t[:, 0], t[:, 1])), shape=(nf, len(cells)))
+    return pp.Grid(2, X, face_nodes, cell_faces, "MixedTriQuad")
+
+
 def make_grid(spec):
     kind = spec["kind"]
+    if kind == "mixed":
+        g = mixed_grid(spec["n"][0], spec["n"][1], spec["split"], spec.get("pert"))
+        g.compute_geometry()
+        return g
     n = np.array(spec["n"])
     if kind == "cart":
         g = pp.CartGrid(n)
@@ -83,7 +133,13 @@ def make_grid(spec):
 def grid_spec(rng, tier):
     big = tier != "quick"
     r = rng.random()
-    if r < 0.35:
+    if r < 0.15:
+        # triangles and quadrilaterals in one grid (public pp.Grid constructor)
+        nx, ny = rng.choice([[2, 1], [1, 2], [2, 2], [3, 1], [3, 2], [3, 3]])
+        split = [rng.choice([0, 1, 2]) for _ in range(nx * ny)]
+        split[0], split[-1] = 0, rng.choice([1, 2])
+        spec = {"kind": "mixed", "n": [nx, ny], "split": split}
+    elif r < 0.35:
         spec = {"kind": "cart", "n": [rng.randint(1, 4), rng.randint(1, 4)]}
     elif r < 0.7:
         spec = {"kind": "tri", "n": [rng.randint(1, 3), rng.randint(1, 3)]}
@@ -196,11 +252,13 @@ class C16(Prop):
         "with the public bound_displacement_face matrix.")
     technique = ("Coq proof of method-level theorems (linearity / row-sum arguments over Q) + "
                  "certificate checkers evaluated by vm_compute on the real matrices + numpy oracle")
-    rule = ("grids: CartGrid 2-D (<=4x4) and 3-D, StructuredTriangleGrid, StructuredTetrahedralGrid "
+    rule = ("grids: CartGrid 2-D (<=4x4) and 3-D, grids mixing triangles and quadrilaterals (public pp.Grid "
+            "constructor), StructuredTriangleGrid, StructuredTetrahedralGrid "
             "(3-D larger in the thorough tier), 55% with every node moved by a dyadic offset "
             "(non-planar hexahedral faces included); constant Lame parameters from a dyadic set; "
             "boundary: all Dirichlet (40%), Dirichlet/Neumann per face (30%) or per face-component "
-            "(30%), at least half of the boundary faces Dirichlet in every component; translation with "
+            "(30% + every third case: rollers, Dirichlet in some components and Neumann in others on one "
+            "face, on boundaries of every orientation), at least half of the boundary faces Dirichlet in every component; translation with "
             "quarter-integer components; non-trivial = at least 2 cells and a non-zero translation")
     trusted = ["the rows handed to Coq are the matrices of data[pp.DISCRETIZATION_MATRICES] "
                "(scipy hstack of the blocks, explicit zeros dropped) converted with Fraction(float)",
@@ -218,22 +276,29 @@ class C16(Prop):
     def generate(self, rng, n, tier):
         mus = [0.5, 1.0, 1.5, 2.0, 3.0, 0.75]
         lams = [0.5, 1.0, 2.0, 4.0, 0.25, 1.5]
-        for _ in range(n):
+        for idx in range(n):
             spec = grid_spec(rng, tier)
             g = make_grid(spec)
             nd = g.dim
             bf = [int(f) for f in g.get_all_boundary_faces()]
             r = rng.random()
             mode = "dir" if r < 0.4 else ("face" if r < 0.7 else "comp")
+            if idx % 3 == 0:
+                mode = "comp"       # directed stream: component-wise rollers (Dirichlet in some
+                                    # components, Neumann in the others, on one face)
             neu = []
-            if mode == "face":
+
+            def pick():
+                # a random subset of at most half of the boundary faces, of every orientation
                 cand = [f for f in bf if rng.random() < 0.5]
-                cand = cand[: len(bf) // 2]
-                neu = [[k, f] for f in cand for k in range(nd)]
+                rng.shuffle(cand)
+                return sorted(cand[: len(bf) // 2])
+
+            if mode == "face":
+                neu = [[k, f] for f in pick() for k in range(nd)]
             elif mode == "comp":
                 for k in range(nd):
-                    cand = [f for f in bf if rng.random() < 0.5]
-                    neu += [[k, f] for f in cand[: len(bf) // 2]]
+                    neu += [[k, f] for f in pick()]
             t = [rng.randint(-16, 16) / 4.0 for _ in range(nd)]
             if rng.random() < 0.1:
                 t = [0.0] * nd
